@@ -24,21 +24,31 @@ package mongodb
 //@   ensures result0 != nil ==> fresh(result0) && result0.DUID == duid && docWF(result0)
 //@   modifies schema.DatatypeDoc.*, schema.SubscribedClientDoc.*, map[string]*schema.SubscribedClientDoc, alloc
 
+// Ghost view of the operations collection for the datatype being served: G.stored is the number
+// of stored operations. The induction hypothesis of C06 (Inv_log: ids duid:1..stored, sseq i at
+// id duid:i) is what makes a range query return consecutive sequence numbers ending at G.stored.
+//@ ghost field G.stored mathint
+
 //@ func (*MongoCollections).GetOperations
-//@   trusted MongoDB Find {duid, sseq >= from [, <= to]} sorted by sseq ascending + BSON decode
+//@   trusted MongoDB Find {duid, sseq >= from [, <= to]} sorted by sseq ascending + BSON decode; consecutive numbering is the C06 invariant at request entry
 //@   mode math
 //@   ensures result2 != nil ==> len(result0) == 0 && len(result1) == 0
 //@   ensures len(result0) == len(result1)
-//@   ensures forall i int :: 0 <= i && i < len(result0) ==> result0[i] != nil && result0[i].ID != nil && result1[i] >= from
-//@   ensures forall i int, j int :: 0 <= i && i < j && j < len(result1) ==> result1[i] < result1[j]
-//@   modifies alloc
+//@   ensures forall i int :: 0 <= i && i < len(result0) ==> result0[i] != nil && result0[i].ID != nil && result1[i] == from + i && result0[i].$sseq == from + i
+//@   ensures result2 == nil && to == constants.InfinitySseq ==> len(result0) == (from <= G.stored ? G.stored - from + 1 : 0)
+//@   modifies alloc, model.Operation.$sseq
 
 //@ func (*MongoCollections).InsertOperations
-//@   trusted MongoDB InsertMany
+//@   trusted MongoDB InsertMany (all-or-error as far as the reply tells)
 //@   mode math
-//@   modifies nothing
+//@   ensures result == nil ==> G.stored == old(G.stored) + len(operations)
+//@   ensures result != nil ==> G.stored >= old(G.stored)
+//@   modifies G:stored
 
+// The recorded end of the log must never exceed what is stored (C06): this is a PRECONDITION of
+// writing the datatype document, checked at every call site.
 //@ func (*MongoCollections).UpdateDatatype
 //@   trusted MongoDB UpdateOne(upsert) of the datatype document
 //@   mode math
+//@   requires[end-not-beyond-stored] datatype != nil && datatype.Sseq.End <= G.stored
 //@   modifies nothing
